@@ -156,5 +156,6 @@ def C08_exHist : List Ev :=
    Ev.recv ⟨3000000, 2, false, false⟩, Ev.recv ⟨3500000, 3, false, false⟩]
 
 example : SortedTs (validHistory C08_exHist) := by decide +kernel
+example : SortedTs (run C08_exCfg C08_exHist).buf := by decide +kernel
 example : (tick C08_exCfg (run C08_exCfg C08_exHist) 3000000 0).2.rel.map (·.id) = [2] := by decide +kernel
 example : (run C08_exCfg C08_exHist).buf.map (·.id) = [0, 2, 3] := by decide +kernel
